@@ -907,6 +907,20 @@ def h_load( ctx ):
         res.ok( src, hx[0], 'no more files => EXHAUSTED; the look-ahead queue keeps draining against the advancing clock' )
     else:
         res.bad( src, ld, 'HistoryExhausted', 'running out of files must switch to EXHAUSTED and keep draining the queue with the advancing clock' )
+    # ... and that is the ONLY way to COMPLETE: every store of COMPLETE into self.state sits under a test that the queue is empty - records
+    # at or beyond `upcoming` wait in self.future also WITHOUT a look-ahead, and a loader declared complete never applies them
+    for a_ in [ a for a in ast.walk( ld ) if isinstance( a, ast.Assign ) and any( dotted( t ) == 'self.state' for t in a.targets ) and 'COMPLETE' in attrs_in( a.value ) ]:
+        tests = [ g.test for g in src.ancestors( a_ ) if isinstance( g, ast.If ) and any( g is x for x in ast.walk( ld )) and any( a_ is y for b_ in g.body for y in ast.walk( b_ )) ]
+        empty = False
+        for t_ in tests:
+            v_ = [ try_fold( t_, { 'self.future': f_, 'len': len }, default='?' ) for f_ in ( [], [ ( 1, 'r' ) ] ) ]
+            if v_[0] not in ( '?', False, 0, None ) and v_[1] in ( False, 0, None ):
+                empty = True
+        if empty:
+            res.ok( src, a_, 'COMPLETE is stored only where the queue is known to be empty' )
+        else:
+            res.bad( src, a_, 'loader.load declares the replay COMPLETE without looking at the queue ( %s )' % ( ' and '.join( norm_text( t_ ) for t_ in tests ) or 'unguarded' ),
+                     'records queued for later ( at or beyond `upcoming`, or within the look-ahead ) are still in self.future: the loader evaluates False, later load() calls return at once, the records are never applied - the register map ends wrong' )
     cm = [ s for s in ast.walk( lp ) if isinstance( s, ast.If ) and pmatch( s.test, 'self.state == self.EXHAUSTED' ) ]
     if cm and any( isinstance( i, ast.If ) and pmatch( i.test, 'not self.future' ) and any( 'COMPLETE' in attrs_in( b ) for b in i.body ) for i in cm[0].body ) \
        and any( isinstance( b, ast.Break ) for b in cm[0].body ):
